@@ -59,7 +59,7 @@ def main(argv):
     # every table that is generated from /repo's source is regenerated on every run of every check (each file is
     # rewritten only when its content changes), so that a stale table can never linger in the tree
     from harness import extract_tables as E, extract_order as O
-    for gen in (E.gen_c01, E.gen_c12, E.gen_c16, O.gen_src):
+    for gen in (E.gen_c01, E.gen_c12, E.gen_c16, E.gen_c19, O.gen_src):
         gen()
     pre = getattr(mod, "pre_build", None)
     if pre:
